@@ -1,5 +1,6 @@
 import ProductMD.Proofs.C14RoundTrip
 import ProductMD.Proofs.C14F9
+import ProductMD.Proofs.C14F9bp
 import ProductMD.Proofs.C14Reorder
 /-!
 # C14 — release identifiers round-trip; the validity predicates accept exactly the documented names
@@ -159,6 +160,15 @@ theorem C14_roundtrip_partial (r : Rel) (bp : Option Rel)
     createRel r bp >>= parseReleaseId = .ok (r, bp) :=
   roundtrip C14_types_suffix_free r bp hr hbp
 
+/-- on the domain of the round trip `create_release_id` is injective (it has a left inverse there) -/
+theorem C14_create_injective (r r' : Rel) (bp bp' : Option Rel)
+    (hr : r.Valid) (hbp : ∀ b, bp = some b → b.Valid) (hr' : r'.Valid) (hbp' : ∀ b, bp' = some b → b.Valid)
+    (h : createRel r bp = createRel r' bp') : r = r' ∧ bp = bp' := by
+  have h1 := C14_roundtrip_partial r bp hr hbp
+  have h2 := C14_roundtrip_partial r' bp' hr' hbp'
+  rw [h, h2] at h1
+  simpa using h1.symm
+
 /-- the identifier itself -/
 theorem C14_create_format (r : Rel) (bp : Option Rel) (hr : r.Valid) (hbp : ∀ b, bp = some b → b.Valid) :
     createRel r bp = .ok (match bp with | none => partStr r | some b => partStr r ++ '@' :: partStr b) := by
@@ -199,6 +209,26 @@ theorem C14_F9_region (r : Rel) (hs : '-' ∈ r.short) (ht : r.type = GA) :
         subst e
         exact parsePart_dashed_ga hs _ ⟨rfl, rfl⟩ hp
   · intro h; cases h
+
+/-- the same for a base product in the F9 region, whatever the release part is -/
+theorem C14_F9_region_bp (r b : Rel) (hs : '-' ∈ b.short) (ht : b.type = GA) :
+    createRel r (some b) >>= parseReleaseId ≠ .ok (r, some b) := by
+  have hbe : b.short.isEmpty = false := by
+    cases hb : b.short with
+    | nil => rw [hb] at hs; cases hs
+    | cons _ _ => rfl
+  have hcb : createPartO b.short (some b.version) (some b.type) = createPart b.short b.version b.type := rfl
+  unfold createRel createReleaseId
+  cases createPart r.short r.version r.type with
+  | error e => intro h; cases h
+  | ok x =>
+    simp only [Option.map_some, hbe, Bool.false_eq_true, if_false, hcb]
+    rw [createPart_eq]
+    by_cases hv : isValidReleaseShort b.short = true ∧ isValidReleaseVersion b.version = true
+        ∧ isValidReleaseType b.type = true
+    · rw [if_pos hv, if_pos ht]
+      exact parse_bp_dashed_ga hs r b ⟨rfl, rfl⟩
+    · rw [if_neg hv]; intro h; cases h
 
 /-- hence, on what the code accepts (known type, version free of `-` and `@`), the round trip holds exactly
 outside the F9 region -/
